@@ -34,6 +34,7 @@ var accelShapes = []string{
 	`\w*@x`, `[^,]*,`, `a*b`, `\s*=`, `[ab]*c+d`, `a*?b`, `\w+:`, `(?>a*)b`,
 	`\w+@\w+\.com`, `[\w-]+\s*=\s*\d+`, `[a-z]+ = [0-9]+;`,
 	`[abc]\d`, `\d+x`, `[a-c]+`, `a|b|c`, `ab|.c`, `a|.`, `(?:a|b)c|d`, `a?b`, `(a)?b`, `(?=ab)a.`, `(?=a)\w+`, `(?!b)\w`, `(?<=a)b`,
+	`(?((a))\1)-`, `(?((a))\1|)-`, `(a)?(?(1)\1|)b`, `(?(?=a)\w\w|)-`,
 	`[ac]*[ab]{1,2}a`, `a*[ab]{1,2}[a-]`, `[ac]+[ab]{1,3}b[ab]{1,2}a`, `\w*[ab]{2,3}b`, `(?>a+)?ab`, `(?>a*)?aab`, `(?>a{1,2}){2}`, `(?<=(?:a*ba){2})`, `(?<=(?:a*$){2})`,
 	`(a*c?)b\1`, `(\w+,)\1`, `(a+b?)\1c`, `(?<w>\w+ )\k<w>`, `([ab]+c?)d\1`,
 	`abab`, `abca\d`, `abab\w`, `aba`, `abcab`, `(?i)abab`,
